@@ -14,6 +14,15 @@ def hook_commits():
     return [l.split()[0] for l in out.splitlines() if "verif hook" in l]
 
 CHECKS = {
+ "C03": dict(cat="exploration", design="DESIGN.md section 6 C03",
+   text="Multi-device worlds in which every plaintext position of every secret kind, custom fields, comments, attachments' content and names, folder descriptions carries a unique high-entropy marker; account password, folder passwords and the device signing key are learned from the account. After every step every marker is searched (raw, hex, base64/base64url at three alignments, UTF-16, lower-cased) in three channels: every byte written under any data directory (write/pwrite interposition: temp and deleted files included), every file of every client and the server (vaults, logs, sqlite + WAL, exported backup archives), every request/response body on the simulated network.",
+   note="Pairing messages (relay websocket) and the audit log provider are outside the simulated world; 'holding every byte the server received is not enough' is covered by the byte search over the server directory and all wire buffers, not by an attacker decode attempt. A sensitivity self-test (declaring a clear-text folder name secret) fires on disk, file and wire channels. Sampling only.",
+   tech="deterministic simulation with byte-level monitors on disk writes (libc interposition), files and wire buffers"),
+ "C11": dict(cat="exploration", design="DESIGN.md section 6 C11",
+   text="The adversary is a fault source of the simulated network: at seeded points of multi-device histories it injects the whole product of 15 route-methods x up to 9 invalid credential forms (bodies as a trusted device would send them) into the real axum router; each must be answered 4xx and leave every account's logs and the blob listing unchanged. A second account, excluded by a per-run access configuration (allow list without it / deny list / both lists), must be refused on every endpoint with its own valid credentials; a key is trusted (served: positive control), revoked, then refused; legitimate syncs keep working.",
+   note="The websocket and relay routes are not compiled into the simulated server (features listen/pairing off). Sampling over histories, enumeration over the route x credential product at each injection point.",
+   tech="deterministic simulation: adversarial transport injecting forged requests into the in-process server router, state-unchanged oracle"),
+
  "C13": dict(cat="fault_enumeration", design="DESIGN.md section 6 C13",
    text="For seeded histories and each target operation a twin child process traces the N mutating file-system calls of the operation; for every crash point k<=N (and tear offsets of writes) a crash child runs the same operation on a byte-identical copy and is killed with _exit inside the k-th interposed libc call after j bytes; the orchestrator then opens the crashed directory the normal way: sign-in must succeed, every event log must equal its before- or after-state, every folder must equal the replay of its log and its persisted vault. Both backends (SQLite's own journal/WAL writes are crash points too).",
    note="Process crash, not power loss. The unchanged tree violates the property broadly (no atomic commit across vault and log, in-place rewrites); the root causes are listed as known findings by (backend, class) pattern, so the check reports classes that do not occur today (e.g. emptied / missing / unreadable logs, sqlite accounts that no longer open). Merge application and server-side storage are not crashed yet.",
